@@ -250,10 +250,13 @@ static void classify(const char *text, size_t len, char *out, size_t n)
         return;
     }
     {
-        char *z = malloc(len + 1);
+        char *z = malloc(len + 1), *q;
         memcpy(z, text, len);
         z[len] = 0;
-        s = strlen(z) == len ? xmpp_stanza_new_from_string(g_ctx, z) : NULL;
+        /* the stream prefix is declared on the stream header, not on the element: drop it */
+        while ((q = strstr(z, "stream:error")) != NULL)
+            memmove(q, q + 7, strlen(q + 7) + 1);
+        s = strlen(z) + (len - strlen(z)) == len && !memchr(text, 0, len) ? xmpp_stanza_new_from_string(g_ctx, z) : NULL;
         free(z);
     }
     if (!s) {
@@ -425,10 +428,25 @@ static void finish(const char *res, snap_t *snap, int nsnap)
         st_i = xmpp_conn_is_connecting(g_conn) ? 1 : 0;
         st_c = xmpp_conn_is_connected(g_conn) ? 1 : 0;
         st_d = xmpp_conn_is_disconnected(g_conn) ? 1 : 0;
-        fprintf(g_out, " | st %s neg %d sec %d q %d\n",
+        fprintf(g_out, " | st %s neg %d sec %d q %d",
                 st_i + st_c + st_d != 1 ? "BAD" : (st_c ? "c" : st_i ? "i" : "d"),
                 g_conn->stream_negotiation_completed, xmpp_conn_is_secured(g_conn) ? 1 : 0,
                 g_conn->send_queue_len);
+        if (g_conn->sm_state) {
+            xmpp_sm_state_t *sm = g_conn->sm_state;
+            xmpp_send_queue_t *e;
+            int firstq = 1;
+            fprintf(g_out, " sm %d%d%d%d%d s%u h%u q", sm->sm_support, sm->sm_enabled, sm->can_resume,
+                    sm->resume, sm->r_sent, sm->sm_sent_nr, sm->sm_handled_nr);
+            for (e = sm->sm_queue.head; e; e = e->next) {
+                fprintf(g_out, "%s%u", firstq ? "" : ",", e->sm_h);
+                firstq = 0;
+            }
+            if (firstq)
+                fputc('-', g_out);
+        } else
+            fprintf(g_out, " sm none");
+        fputc('\n', g_out);
     } else
         fprintf(g_out, " | st - neg 0 sec 0 q 0\n");
 }
@@ -471,6 +489,7 @@ static void drop_conn(void)
 int eng_conn(FILE *in, FILE *out)
 {
     static unsigned char zeros[1] = {0};
+    long base_live = -1;
     char *line;
     g_out = out;
     g_ctx = xmpp_ctx_new(&hmem, &hlog_quiet);
@@ -486,6 +505,12 @@ int eng_conn(FILE *in, FILE *out)
         if (n == 1 && !strcmp(tok[0], "case")) {
             drop_conn();
             fnet_reset();
+            if (base_live < 0)
+                base_live = hmem_live;
+            else if (hmem_live != base_live) {
+                fprintf(out, "ORACLE-FAIL leak %ld\n", hmem_live - base_live);
+                base_live = hmem_live; /* report each leak once */
+            }
             hclock_ms = 1000000;
             g_events[0] = 0;
             fprintf(out, "= case\n");
@@ -608,9 +633,9 @@ int eng_conn(FILE *in, FILE *out)
         free_snapshot(snap, nsnap);
     }
     drop_conn();
+    if (base_live >= 0 && hmem_live != base_live)
+        fprintf(out, "ORACLE-FAIL leak %ld\n", hmem_live - base_live);
     xmpp_ctx_free(g_ctx);
     fnet_reset();
-    if (hmem_live != 0)
-        fprintf(out, "ORACLE-FAIL leak %ld\n", hmem_live);
     return 0;
 }
